@@ -8,22 +8,22 @@ HERE = os.path.dirname(os.path.dirname(os.path.abspath(__file__)))
 # id -> (technique, decides, does-not-decide)
 META = {
  'C01': ('static analysis: MIR guarded must-pass-through + comparison-guard order abstraction + provenance slices',
-         'every accepting path of AggregateSignature::verify/batch_verify passes each mandatory check with the accepting outcome; index<m; roles of lottery / membership / pairing arguments; structure of the BLS aggregation coefficients; final-node check of the batch path',
-         'BLS / Merkle / Blake2b soundness; batch == conjunction of singles (algebraic)'),
+         'every accepting path of AggregateSignature::verify/batch_verify passes each mandatory check with the accepting outcome; index<m; roles of lottery / membership / pairing arguments; structure of the BLS aggregation coefficients inside a member and of the per-member weights of a batch (transcript over the whole batch, same weight on key and signature, the weighted values are what is checked); members of a batch are coefficient-weighted aggregates; decoded signatures / keys pass the group check; final-node check of the batch path',
+         'BLS / Merkle / Blake2b soundness; that the weighted batch equation implies each member equation (algebraic)'),
  'C02': ('static analysis: MIR path rules on the quorum selection routine and the aggregator error mapping',
-         'invalid signatures are skipped not fatal; only NotEnoughSignatures maps to Ok(None); aggregated material derives from the selection; no self-competition in the index-conflict branch',
+         'invalid signatures are skipped not fatal; only NotEnoughSignatures maps to Ok(None); aggregated material derives from the selection; selection state (index map, removal lists, seen sets) is written only for verified signatures (typestate: collections filled behind a verification, least fixpoint); equal copies of a signature are merged (union of verified indices) before the contest, or an identity guard gates the removal bookkeeping; NotEnoughSignatures is constructed only where indices were counted',
          'completeness (>= k covered indices => success) and order insensitivity are value/history properties'),
  'C03': ('static analysis: MIR guarded must-pass-through per return kind + chaining-guard structure + who-may-call',
-         'Ok(Some(prev)) only after all nine checks; Ok(None) only at verified genesis; key/argument provenance; structure of AVK/parameter chaining; epoch link direction; client cache discipline',
+         'Ok(Some(prev)) only after all nine checks; Ok(None) only at verified genesis; key/argument provenance; structure of AVK/parameter chaining; epoch link direction; client cache discipline incl. a certificate downloaded for a cached link must carry the requested hash; served message -> verified entity conversion is field-faithful',
          'Ed25519/BLS cryptography; multi-hop cycles (hash)'),
  'C04': ('static analysis: field coverage of hash / conversion functions over the ADTs of the current tree',
-         'every field reaches the hasher / the converted value; protocol-message key+value; variant payload fields and variant tag; phi_f fixed-point projection; signature choice',
+         'every field reaches the hasher / the converted value; protocol-message key+value; variant payload fields and variant tag; phi_f fixed-point projection; signature choice; Display text of the message part keys is injective (one distinct literal per key)',
          'collision freedom of pre-images; JSON/chrono round trips'),
  'C05': ('static analysis: flow-sensitive wire-integer taint (bit-width abstraction) + audited panic inventory over the decoder call closure',
          'no allocation / raw arithmetic / panicking index on integers decoded from the input in workspace decoders; every other panic-capable site audited',
          'third-party decoders (ciborium, bincode, serde_json, hex, blst); value round trips'),
  'C07': ('static analysis: MIR must-pass-through + provenance of identity/stake/KES arguments',
-         'registration succeeds only after KES (incl. op-cert cold signature), PoP (both halves), duplicate and stake-distribution checks; id from the cold key, stake from the distribution; window constant; leader ordering',
+         'registration succeeds only after KES (incl. op-cert cold signature), PoP (both halves), duplicate and stake-distribution checks; id from the cold key, stake from the distribution; the verified signer is rebuilt with the registered id; window constant +-1 and clamp to the last period of the Sum<N> KES scheme; leader ordering',
          'KES/Ed25519/BLS soundness; KES period arithmetic'),
  'C09': ('static analysis: MIR must-pass-through + comparison guards + provenance inside the Merkle verifiers',
          'structural guards and final root comparison of the STM batch path; MMR verdict gates MKProof::verify over the exposed fields; sub-proof / master / linkage checks of MKMapProof; set-proof item containment',
@@ -35,7 +35,7 @@ META = {
          'generation passed at every give-back; fullness and staleness tests atomic with the push; item tag stored with the resource; lock order; notify after push; refresh order in both provers',
          'liveness of waiters beyond notify-follows-push'),
  'C06': ('static analysis: ADT/collection-type facts + ordering field coverage + who-may-construct + provenance',
-         'registration collections are ordered sets iterated directly for leaves / slot / lookup; Ord reads exactly the committed fields; leaf encoding covers the leaf; AVK and closed registration built on one path; every node goes through SignerBuilder::new; total stake = checked sum',
+         'registration collections are ordered sets iterated directly for leaves / slot / lookup; Ord reads exactly the committed fields; leaf encoding covers the leaf; AVK and closed registration built on one path; every node goes through SignerBuilder::new; total stake = checked sum; the signer associates every registered signer with a stake or fails (no dropping); the served Mithril stake distribution is the next-epoch set the signed key commits',
          'injectivity of the commitment (hash); codec round trips'),
  'C08': ('static analysis: who-may-call + argument-role provenance + effect-closure purity',
          'is_lottery_won has exactly the signer and verifier callers with identical argument roles; the draw hashes message, index and sigma; the decision closure is effect-free; the signer iterates 0..m; stake and total stake are converted losslessly',
@@ -44,22 +44,22 @@ META = {
          'Verified* values only from verify(); per-set-proof verification, common root, at least one; v2 root/items/offset provenance; leaf identifier covers all fields with injective text templates; stake leaf template; message recomputation from verified values; nested map proof rules',
          'hash-level injectivity; the aggregator prover'),
  'C12': ('static analysis: collection-type facts + comparison guards + provenance + effect-closure purity',
-         'digests keyed by an ordered map feed the tree in key order; Ord(number, path); sorted listing; number <= beacon filter and beacon-exists guard; digest per entry from its cache entry or its bytes; cache failures cannot change the result; no clock/RNG/hash-order dependence',
-         'byte sensitivity (hash); real directory layouts; cache staleness for changed files'),
+         'digests keyed by an ordered map feed the tree in key order; Ord(number, path); sorted listing; number <= beacon filter and beacon-exists guard; the listing is consumed only through the beacon filter (forward taint: files beyond the beacon decide nothing); digest per entry from its cache entry or its bytes; cache failures cannot change the result; no clock/RNG/hash-order dependence',
+         'byte sensitivity (hash) incl. whether a hand-written block loop covers every byte (numeric, seed C12-5 declined); real directory layouts; cache staleness for changed files'),
  'C13': ('static analysis: effect ordering inside transactions + per-batch loop rules + embedded SQL comparison operators',
-         'roll-back = begin < 3 deletes bound to one block number < commit; every polled batch stored or rolled back with errors propagated; resume cursor written only after the loop; chunk-atomic store; SQL threshold directions; foreign-key enforcement on every chain-data connection; the block streamer forwards every roll-back but the opening one',
+         'roll-back = begin < 3 deletes bound to one block number < commit; every polled batch stored or rolled back with errors propagated; resume cursor read/written only behind the end of the stream (directly or through an awaited helper whose Ok requires it); no element-dropping adapter between a polled batch and the store; a chain position kept in memory by an importer is the streaming cursor or is rewritten on the roll-back path; chunk-atomic store; SQL threshold directions; foreign-key enforcement on every chain-data connection; the block streamer forwards every roll-back but the opening one',
          'convergence over histories; restart behaviour'),
  'C14': ('static analysis: must-pass-through per return kind + effect ordering + provenance + who-may-call + state-relation guards + embedded SQL operator',
          'create_certificate: flags, multi-signature, self-verification < store < mark; certificate field provenance; who stores certificates; Idle->Ready guards; epoch-initialisation order; gap test before walk; strict pruning threshold of open messages',
          'the invariant over all interleavings; SQL uniqueness; master-certificate query'),
  'C15': ('static analysis: effect ordering + provenance + error-mapping + lock pairing',
-         'verify < insert < mark order; nothing persisted on the no-certificate return; artifact record fields from the inputs; artifact only with the sealed certificate; ReInit/KeepState mapping; entity lock released on every exit of the spawned task; the restart-time clean-up keeps the current epoch\'s open messages (SQL operator)',
+         'verify < insert < mark order; AlreadyCertified is raised only under the open message's own flag (the stored-but-unflagged window stays re-sealable); nothing persisted on the no-certificate return; artifact record fields from the inputs; artifact only with the sealed certificate; ReInit/KeepState mapping; entity lock released on every exit of the spawned task; the restart-time clean-up keeps the current epoch\'s open messages (SQL operator)',
          'what a restart finds after each cut; progress'),
  'C16': ('static analysis: effect ordering + provenance + influence-on-control + who-may-call',
          'verify < store on an open non-expired message; stored = verified signature; key looked up by slot in the epoch registration; certificate signer filter; ingestion paths; DMQ sender pairing; party-label binding (known finding)',
          'storage-key semantics in SQL'),
  'C17': ('static analysis: effect-closure purity + who-may-construct + arithmetic-shape rules',
-         'beacon function effect-free; block-number entity variants derived from a tip only there; shared formula with saturating subtraction and max(step,1) divisor; operand roles; all kinds handled',
+         'beacon function effect-free; block-number entity variants derived from a tip only there; shared formula with saturating subtraction and floored divisor (or checked division); operand roles incl. no dependence on another entity's signing configuration; all kinds handled',
          'the arithmetic claims (<= tip-k, monotone, multiples, range boundary)'),
  'C19': ('static analysis: effect ordering + who-may-construct + must-pass-through + provenance',
          'ancillary: temp-dir unpack < verify < move, temp dir removed on every exit; ValidatedAncillaryManifest only from verify (data hashes, signature present, configured key); only listed files moved; immutable archives unpacked into the target (known finding)',
